@@ -104,7 +104,8 @@ Definition proper_ancestor (a s : ustring) : Prop := exists rest, rest <> [] /\ 
 Definition lower_key_char (x : N) : Prop :=
   (97 <= x <= 122 \/ 48 <= x <= 57 \/ x = 95 \/ x = 45)%N.
 Definition upper_char (x : N) : Prop := (65 <= x <= 90)%N.
-Definition digit_char (x : N) : Prop := (48 <= x <= 57)%N.
+(* a decimal digit as Python's \d understands it for str patterns: any Unicode Nd code point (table nd_ranges) *)
+Definition digit_char (x : N) : Prop := exists r, In r nd_ranges /\ (fst r <= x <= snd r)%N.
 
 Definition key_seg (upper : bool) (lo hi : nat) (s : ustring) : Prop :=
   lo <= length s <= hi /\ Forall (fun x => lower_key_char x \/ (upper = true /\ upper_char x)) s.
